@@ -764,4 +764,263 @@ theorem WInv.setSame {s s' : St} (h : WInv s) {t : Nat} {x : TStat}
   · rw [h4]; intro hc t' w; rw [key, h2]; exact h.seq hc t' w
   · rw [h4]; intro hc t' t'' w; rw [key, key]; exact h.uniq hc t' t'' w
 
+theorem WInv.gc {s : St} (h : WInv s) (hq : QInv s) : WInv (gc s) := by
+  constructor
+  · intro t w; rw [active_gc hq]; simpa using h.alive t w
+  · intro w t; rw [active_gc hq]; simpa using h.awaiting w t
+  · intro hc t w; rw [active_gc hq]; simpa using h.seq (by simpa using hc) t w
+  · intro hc t t' w; rw [active_gc hq, active_gc hq]; exact h.uniq (by simpa using hc) t t' w
+
+/-- `executor.clear()` of a worker whose thread is finishing -/
+theorem WInv.clear {s : St} (h : WInv s) {w : Nat} {m : Main} (hm : ∀ t, m ≠ .awaiting t) :
+    WInv (clearExec { s with main := upd s.main w m } w) := by
+  have key : ∀ t' w', (clearExec { s with main := upd s.main w m } w).active t' w' ↔
+      s.active t' w' ∧ ¬ s.active t' w := fun t' w' => active_clearExec
+  have ne : ∀ t' w', s.active t' w' → ¬ s.active t' w → w' ≠ w := by
+    intro t' w' h1 h2 he; subst he; exact h2 h1
+  constructor
+  · intro t' w' ha
+    rw [key] at ha
+    have := h.alive t' w' ha.1
+    simp only [clearExec_nw, clearExec_main]
+    rw [upd_other _ _ (ne t' w' ha.1 ha.2)]; exact this
+  · intro w' t' hw
+    simp only [clearExec_main, clearExec_conc] at hw ⊢
+    rw [upd_apply] at hw
+    by_cases hww : w' = w
+    · simp [hww] at hw; exact (hm t' hw).elim
+    · simp [hww] at hw
+      have := h.awaiting w' t' hw
+      refine ⟨this.1, (key t' w').mpr ⟨this.2, fun ha => hww (activeOn_unique this.2 ha)⟩⟩
+  · intro hc t' w' ha
+    rw [key] at ha
+    simp only [clearExec_main]
+    rw [upd_other _ _ (ne t' w' ha.1 ha.2)]
+    exact h.seq hc t' w' ha.1
+  · intro hc t' t'' w' ha ha'
+    rw [key] at ha ha'
+    exact h.uniq hc t' t'' w' ha.1 ha'.1
+
+theorem WInv.die {s : St} (h : WInv s) {w p : Nat} : WInv { s with main := upd s.main w (.dying p) } := by
+  constructor
+  · intro t' w' ha
+    have := h.alive t' w' ha
+    refine ⟨this.1, ?_⟩
+    show (upd s.main w (.dying p) w').gone = false
+    rw [upd_apply]; split
+    · rfl
+    · exact this.2
+  · intro w' t' hw
+    have hw : upd s.main w (.dying p) w' = .awaiting t' := hw
+    rw [upd_apply] at hw
+    by_cases hww : w' = w
+    · simp [hww] at hw
+    · simp [hww] at hw; exact h.awaiting w' t' hw
+  · intro hc t' w' ha
+    show upd s.main w (.dying p) w' = .awaiting t' ∨ ∃ q, upd s.main w (.dying p) w' = .dying q
+    rw [upd_apply]
+    by_cases hww : w' = w
+    · simp [hww]
+    · simp [hww]; exact h.seq hc t' w' ha
+  · exact h.uniq
+
+theorem WInv.exitLoop {s : St} (h : WInv s) {w : Nat} (hi : s.main w = .idle) :
+    WInv { s with main := upd s.main w .draining } := by
+  constructor
+  · intro t' w' ha
+    have := h.alive t' w' ha
+    refine ⟨this.1, ?_⟩
+    show (upd s.main w .draining w').gone = false
+    rw [upd_apply]; split
+    · rfl
+    · exact this.2
+  · intro w' t' hw
+    have hw : upd s.main w .draining w' = .awaiting t' := hw
+    rw [upd_apply] at hw
+    by_cases hww : w' = w
+    · simp [hww] at hw
+    · simp [hww] at hw; exact h.awaiting w' t' hw
+  · intro hc t' w' ha
+    show upd s.main w .draining w' = .awaiting t' ∨ ∃ q, upd s.main w .draining w' = .dying q
+    rw [upd_apply]
+    by_cases hww : w' = w
+    · subst hww
+      rcases h.seq hc t' w' ha with h1 | ⟨q, h1⟩ <;> simp [hi] at h1
+    · simp [hww]; exact h.seq hc t' w' ha
+  · exact h.uniq
+
+theorem WInv.recv {s : St} (h : WInv s) {w t : Nat} (hw : w < s.nw) (hi : s.main w = .idle)
+    (hq : s.stat t = .queued) :
+    WInv { s with queue := s.queue.erase t, stat := upd s.stat t (.spawned w), main := if s.conc then s.main else upd s.main w (.awaiting t) } := by
+  have hna : ∀ w', ¬ s.active t w' := by intro w'; simp [St.active, hq, TStat.activeOn]
+  have key : ∀ t' w', St.active { s with queue := s.queue.erase t, stat := upd s.stat t (.spawned w), main := if s.conc then s.main else upd s.main w (.awaiting t) } t' w' ↔
+      (t' = t ∧ w' = w) ∨ (t' ≠ t ∧ s.active t' w') := by
+    intro t' w'
+    show (upd s.stat t (.spawned w) t').activeOn w' = true ↔ _
+    rw [upd_apply]
+    by_cases ht : t' = t
+    · subst ht
+      simp only [TStat.activeOn, beq_iff_eq, ne_eq, not_true_eq_false, false_and, or_false, true_and, if_true]
+      exact eq_comm
+    · simp [ht, St.active]
+  have mainw : ∀ w', (if s.conc then s.main else upd s.main w (.awaiting t)) w' =
+      if w' = w then (if s.conc then .idle else .awaiting t) else s.main w' := by
+    intro w'
+    by_cases hc : s.conc = true
+    · by_cases hww : w' = w <;> simp [hc, hww, hi]
+    · by_cases hww : w' = w <;> simp [hc, hww, upd_apply]
+  constructor
+  · intro t' w' ha
+    rw [key] at ha
+    show w' < s.nw ∧ ((if s.conc then s.main else upd s.main w (.awaiting t)) w').gone = false
+    rw [mainw]
+    rcases ha with ⟨rfl, rfl⟩ | ⟨_, ha⟩
+    · refine ⟨hw, ?_⟩; simp; split <;> rfl
+    · have := h.alive t' w' ha
+      refine ⟨this.1, ?_⟩
+      split
+      · split <;> rfl
+      · exact this.2
+  · intro w' t' hm
+    have hm : (if s.conc then s.main else upd s.main w (.awaiting t)) w' = .awaiting t' := hm
+    rw [mainw] at hm
+    show s.conc = false ∧ _
+    rw [key]
+    by_cases hww : w' = w
+    · subst hww
+      simp at hm
+      by_cases hc : s.conc = true
+      · simp [hc] at hm
+      · simp [hc] at hm; subst hm
+        exact ⟨by simpa using hc, Or.inl ⟨rfl, rfl⟩⟩
+    · simp [hww] at hm
+      have := h.awaiting w' t' hm
+      refine ⟨this.1, Or.inr ⟨?_, this.2⟩⟩
+      intro he; subst he; exact hna w' this.2
+  · intro hc t' w' ha
+    replace hc : s.conc = false := hc
+    rw [key] at ha
+    show (if s.conc then s.main else upd s.main w (.awaiting t)) w' = .awaiting t' ∨
+      ∃ p, (if s.conc then s.main else upd s.main w (.awaiting t)) w' = .dying p
+    rw [mainw]
+    rcases ha with ⟨rfl, rfl⟩ | ⟨_, ha⟩
+    · simp [hc]
+    · by_cases hww : w' = w
+      · subst hww
+        rcases h.seq hc t' w' ha with h1 | ⟨q, h1⟩ <;> simp [hi] at h1
+      · simp [hww]; exact h.seq hc t' w' ha
+  · intro hc t1 t2 w' h1 h2
+    replace hc : s.conc = false := hc
+    rw [key] at h1 h2
+    rcases h1 with ⟨rfl, rfl⟩ | ⟨hn1, h1⟩
+    · rcases h2 with ⟨rfl, _⟩ | ⟨_, h2⟩
+      · rfl
+      · rcases h.seq hc t2 w' h2 with h3 | ⟨q, h3⟩ <;> simp [hi] at h3
+    · rcases h2 with ⟨rfl, rfl⟩ | ⟨_, h2⟩
+      · rcases h.seq hc t1 w' h1 with h3 | ⟨q, h3⟩ <;> simp [hi] at h3
+      · exact h.uniq hc t1 t2 w' h1 h2
+
+/-- the body of `t` ends on `w` -/
+theorem WInv.finish {s s' : St} (h : WInv s) {w t : Nat} (hst : s.stat t = .running w 0)
+    (h1 : s'.stat = upd s.stat t (.done w))
+    (h2 : s'.main = resume s.main w (decide (s.main w = .awaiting t)))
+    (h3 : s'.nw = s.nw) (h4 : s'.conc = s.conc) : WInv s' := by
+  have hat : s.active t w := by simp [St.active, hst, TStat.activeOn]
+  have key : ∀ t' w', s'.active t' w' ↔ t' ≠ t ∧ s.active t' w' := by
+    intro t' w'
+    unfold St.active; rw [h1, upd_apply]
+    by_cases ht : t' = t
+    · subst ht; simp [TStat.activeOn]
+    · simp [ht]
+  have mainw : ∀ w', s'.main w' = if w' = w ∧ s.main w = .awaiting t then .idle else s.main w' := by
+    intro w'; rw [h2]; unfold resume
+    by_cases hk : s.main w = .awaiting t
+    · by_cases hww : w' = w <;> simp [hk, hww, upd_apply]
+    · simp [hk]
+  constructor
+  · intro t' w' ha
+    rw [key] at ha
+    have := h.alive t' w' ha.2
+    rw [h3, mainw]
+    refine ⟨this.1, ?_⟩
+    split
+    · rfl
+    · exact this.2
+  · intro w' t' hm
+    rw [mainw] at hm
+    rw [h4, key]
+    split at hm
+    · cases hm
+    · rename_i hne
+      have := h.awaiting w' t' hm
+      refine ⟨this.1, ?_, this.2⟩
+      intro he; subst he
+      have hww := activeOn_unique this.2 hat
+      subst hww
+      exact hne ⟨rfl, hm⟩
+  · rw [h4]; intro hc t' w' ha
+    rw [key] at ha
+    rw [mainw]
+    have := h.seq hc t' w' ha.2
+    split
+    · rename_i hk
+      obtain ⟨rfl, hk⟩ := hk
+      rcases this with h5 | ⟨q, h5⟩
+      · rw [hk] at h5; cases h5; exact (ha.1 rfl).elim
+      · rw [hk] at h5; cases h5
+    · exact this
+  · rw [h4]; intro hc t1 t2 w' a1 a2
+    rw [key] at a1 a2
+    exact h.uniq hc t1 t2 w' a1.2 a2.2
+
+theorem WInv.step {s s' : St} {e : Event} (h : WInv s) (hq : QInv s) (hs : step? s e = some s') :
+    WInv s' := by
+  cases e with
+  | dispatch d t b =>
+    obtain ⟨_, ha, _, hc | hc⟩ := dispatch?_some hs
+    · obtain ⟨_, rfl⟩ := hc
+      exact h.setInactive (t := t) (x := .queued) (by simp [TStat.activeOn]) (by simp [ha, TStat.activeOn])
+        rfl rfl rfl rfl
+    · obtain ⟨_, rfl⟩ := hc; exact h.same rfl rfl rfl rfl
+  | dispatchBlocking d t b ok =>
+    obtain ⟨_, ha, _, hc | hc⟩ := dispatchBlocking?_some hs
+    · obtain ⟨_, rfl⟩ := hc
+      exact h.setInactive (t := t) (x := .pooled) (by simp [TStat.activeOn]) (by simp [ha, TStat.activeOn])
+        rfl rfl rfl rfl
+    · obtain ⟨_, rfl⟩ := hc; exact h.same rfl rfl rfl rfl
+  | runBlocking t =>
+    obtain ⟨hp, hc | hc⟩ := runBlocking?_some hs
+    · obtain ⟨v, _, rfl⟩ := hc
+      exact h.setInactive (t := t) (x := .poolDone) (by simp [TStat.activeOn]) (by simp [hp, TStat.activeOn])
+        rfl rfl rfl rfl
+    · obtain ⟨_, rfl⟩ := hc
+      exact h.setInactive (t := t) (x := .poolDone) (by simp [TStat.activeOn]) (by simp [hp, TStat.activeOn])
+        rfl rfl rfl rfl
+  | rxDrop t => obtain ⟨_, _, rfl⟩ := rxDrop?_some hs; exact h.same rfl rfl rfl rfl
+  | recv w t =>
+    obtain ⟨hw, hi, hmem, rfl⟩ := recv?_some hs
+    exact h.recv hw hi ((hq.mem t).mp hmem)
+  | poll w t =>
+    obtain ⟨_, _, hc | hc | hc | hc⟩ := poll?_some hs
+    · obtain ⟨hst, rfl⟩ := hc
+      exact h.setSame (t := t) (by intro w'; simp [hst, TStat.activeOn]) rfl rfl rfl rfl
+    · obtain ⟨k, hst, rfl⟩ := hc
+      exact h.setSame (t := t) (by intro w'; simp [hst, TStat.activeOn]) rfl rfl rfl rfl
+    · obtain ⟨v, hst, _, rfl⟩ := hc
+      exact h.finish hst rfl rfl rfl rfl
+    · obtain ⟨hst, _, rfl⟩ := hc
+      exact h.finish hst rfl rfl rfl rfl
+  | die w p => obtain ⟨_, _, rfl⟩ := die?_some hs; exact h.die
+  | reap w =>
+    obtain ⟨p, _, _, rfl⟩ := reap?_some hs
+    exact (h.clear (m := .dead p) (by simp)).gc ((hq.same (s' := { s with main := upd s.main w (.dead p) }) rfl rfl).clearExec w)
+  | joinStart =>
+    obtain ⟨_, rfl⟩ := joinStart?_some hs
+    exact (h.same (s' := { s with sender := false }) rfl rfl rfl rfl).gc (hq.same rfl rfl)
+  | exitLoop w => obtain ⟨_, hi, _, _, rfl⟩ := exitLoop?_some hs; exact h.exitLoop hi
+  | teardown w =>
+    obtain ⟨_, _, rfl⟩ := teardown?_some hs
+    exact h.clear (m := .exited) (by simp)
+  | joinReturn => obtain ⟨_, _, _, rfl⟩ := joinReturn?_some hs; exact h.same rfl rfl rfl rfl
+
 end Compio.Dispatcher
